@@ -158,7 +158,8 @@ pub fn c14_roundtrip(data: &[u8]) -> R {
                         2 => c.string(40),
                         _ => format!("{}x", row.1),
                     };
-                    (row.0.to_string(), v)
+                    let name = if sel & 0x40 != 0 { row.0.to_ascii_uppercase() } else { row.0.to_string() };
+                    (name, v)
                 } else {
                     (c.string(24), c.string(300))
                 };
